@@ -84,7 +84,13 @@ type srvResult struct {
 // canary and reads one application message.
 func (w *world) serve(pr *hs.Pair, res *srvResult) {
 	st := pr.SS
-	a := security.NewAuthenticator(w.scfg(), st)
+	// The resuming server's policy leaves authentication optional: the histories also
+	// establish unauthenticated sessions (under a matching permissive policy), and whether
+	// a session meets a stricter policy than it was created under is C03's and C05's
+	// subject, not this property's (keys and dead sessions).
+	rcfg := w.scfg()
+	rcfg.Authentication = security.SecurityOptional
+	a := security.NewAuthenticator(rcfg, st)
 	res.neg, res.hsErr = a.ServerHandshake(w.bg)
 	res.at = time.Now()
 	if res.hsErr != nil {
